@@ -30,10 +30,13 @@ hands the same `shared_ptr` to the setter again" is the event `setActivityInPlac
 `setSpImageInPlace`: the value behind the pointer the object already holds changes (no STIR code runs), then the
 setter runs; the C++ setters do not compare the new pointer with the old one, so neither do these.
 
-What is not modelled: the values of line integrals / cross sections / efficiencies (inputs of (i)),
+What is not modelled: the values of line integrals / cross sections (inputs of (i); coverage round 4: the detection
+efficiency and the solid-angle factor of the activity integral ARE transcribed, section (i-b)),
 `set_output_proj_data*` (the harness always provides a matching output, through one of the three public ways),
-default (negative) zoom factors of `downsample_density_image_for_scatter_points` (answered
-`unmodelled`; oracle-only in the harness), `downsample_images_to_scanner_size` (table row only; oracle-only in the
+the VALUES of the default (negative) zoom factors of `downsample_density_image_for_scatter_points` (coverage round 4: the
+state machine has the members the call stores — `autoZ`: which of `zoom_xy`, `zoom_z`, `zoom_size_xy`, `zoom_size_z` stop
+being -1 — and the factors computed for an (attenuation image, template) pair as a class `World.autoClass`),
+`downsample_images_to_scanner_size` (table row only; oracle-only in the
 harness), the *positions* drawn by random placement of scatter points (the flag `randomly_place_scatter_points` is a
 setting of the state machine and part of the stamp of the scatter points: points sampled with the flag off are not
 the points a fresh object with the flag on would sample), the other parsed keywords (the parsing constructor is
@@ -135,6 +138,84 @@ def integralOverActivity {V : Type} (solidAngleFactor : K) (image : V → K) (in
 
 end Formula
 
+/-! ### (i-b) detection efficiency and the capped solid-angle factor (coverage round 4)
+
+`detection_efficiency` is no longer an input of the formula only: it is transcribed, over any type with `+ - * /`, with
+the two transcendental functions it calls (`erf`, `sqrt`) as parameters, so that its sign / bound are theorems for
+EVERY energy window (also windows that do not contain 511 keV) under the hypotheses "erf is monotone / bounded by 1";
+the driver instantiates the parameters with `erfFloat` / `Float.sqrt` (binary64). -/
+
+section Detection
+variable {K : Type} [Add K] [Sub K] [Mul K] [Div K] [OfNat K 0] [OfNat K 1] [OfNat K 2] [LT K] [DecidableLT K]
+
+/-- `sigma_times_sqrt2` of `ScatterSimulation::detection_efficiency` (scatter_detection_modelling.cxx:124):
+    `sqrt(2. * energy * reference_energy) * energy_resolution / 2.35482f` -/
+def sigmaTimesSqrt2 (sqrt : K → K) (energy eRef res fwhmToSigma : K) : K :=
+  sqrt (2 * energy * eRef) * res / fwhmToSigma
+
+/-- `ScatterSimulation::detection_efficiency(energy)` (scatter_detection_modelling.cxx:104,130):
+    `0.5f * (erf((high - energy) / sigma_times_sqrt2) - erf((low - energy) / sigma_times_sqrt2))` -/
+def detectionEfficiency (erf : K → K) (sigma lo hi energy : K) : K :=
+  1 / 2 * (erf ((hi - energy) / sigma) - erf ((lo - energy) / sigma))
+
+/-- the value `detection_efficiency_no_scatter` stores in `detector_efficiency_no_scatter`
+    (scatter_detection_modelling.cxx:163-168): `detection_efficiency(511) > 0 ? detection_efficiency(511) : 1` -/
+def detEff511OrOne (eff511 : K) : K := if 0 < eff511 then eff511 else 1
+
+/-- `std::min(static_cast<float>(_PI / 2), 1.F / dist_sp1_det_squared)` in
+    `integral_over_activity_image_between_scattpoint_det` (single_scatter_integrals.cxx:56);
+    `std::min(a, b)` is `(b < a) ? b : a` -/
+def solidAngleFactor (halfPi r2 : K) : K := if 1 / r2 < halfPi then 1 / r2 else halfPi
+
+/-- `ScatterSimulation::integral_over_activity_image_between_scattpoint_det` (single_scatter_integrals.cxx:48):
+    the capped solid-angle factor — a function of the GEOMETRY only — times the line integral -/
+def integralOverActivityScattDet {V : Type} (halfPi r2 : K) (image : V → K) (inImage : V → Bool) (lor : List (V × K)) : K :=
+  integralOverActivity (solidAngleFactor halfPi r2) image inImage lor
+
+/-- what the cap must NOT be applied to: `min(pi/2, integral / r²)` (the cap then limits a quantity proportional to the
+    activity; used for the negative example in `Props.lean` only) -/
+def integralOverActivityFoldedCap {V : Type} (halfPi r2 : K) (image : V → K) (inImage : V → Bool) (lor : List (V × K)) : K :=
+  let q := integralBetween2Points image inImage lor / r2
+  if q < halfPi then q else halfPi
+
+end Detection
+
+/-! binary64 instances of the two transcendental parameters -/
+
+/-- `Σ_{n ≥ 0} 2ⁿ x^{2n+1} / (2n+1)!!` (all terms positive for `x ≥ 0`: no cancellation);
+    `erf x = 2/√π · exp(-x²) · series x` -/
+def erfSeriesAux (x2 : Float) : Nat → Float → Float → Float → Float
+  | 0, _, _, sum => sum
+  | fuel + 1, n, term, sum =>
+    let term' := term * 2 * x2 / (2 * n + 3)
+    let sum' := sum + term'
+    if term' < 1e-19 * sum' then sum' else erfSeriesAux x2 fuel (n + 1) term' sum'
+
+/-- continued fraction `x + (1/2)/(x + 1/(x + (3/2)/(x + …)))` evaluated from depth `k` upwards -/
+def erfcContFracAux (x : Float) : Nat → Float → Float
+  | 0, acc => acc
+  | k + 1, acc => erfcContFracAux x k (x + (Float.ofNat (k + 1)) / 2 / acc)
+
+def sqrtPiFloat : Float := Float.sqrt 3.14159265358979323846
+
+/-- `erfc x` for `x ≥ 0`: `1 - erf` from the series below 1.5, the continued fraction above (relative accuracy
+    ~1e-14 in the tail, so that `1 - erfc` has absolute accuracy ~1e-16 where STIR's `erf` returns `1 - z`) -/
+def erfcFloatPos (x : Float) : Float :=
+  if x < 1.5 then 1 - 2 / sqrtPiFloat * Float.exp (-(x * x)) * erfSeriesAux (x * x) 200 0 x x
+  else if x > 27 then 0
+  else Float.exp (-(x * x)) / (sqrtPiFloat * erfcContFracAux x 300 x)
+
+/-- the error function in binary64 (the mathematical function, NOT a transcription of stir/numerics/erf.inl: the
+    implementation's rational approximations are compared with it) -/
+def erfFloat (x : Float) : Float :=
+  let ax := x.abs
+  let v := if ax < 1.5 then 2 / sqrtPiFloat * Float.exp (-(ax * ax)) * erfSeriesAux (ax * ax) 200 0 ax ax
+           else 1 - erfcFloatPos ax
+  if x < 0 then -v else v
+
+/-- `(2/√π)·|t|·exp(-t²)`: the sensitivity of `erf t` to a RELATIVE perturbation of `t` (for the derived tolerance) -/
+def erfSensitivity (t : Float) : Float := 2 / sqrtPiFloat * t.abs * Float.exp (-(t * t))
+
 /-! ## (ii) The sentinel cache -/
 
 section Cache
@@ -190,6 +271,10 @@ inductive SpProv where
   | given (s : Nat)
   /-- `downsample_density_image_for_scatter_points` of attenuation image `att` with zoom parameter set `zoom` -/
   | down (att : Nat) (zoom : Nat)
+  /-- `downsample_density_image_for_scatter_points` of attenuation image `att` with the factors `zoom_xy`, `zoom_z`,
+      `zoom_size_z` of class `cls` that the function computed from the defaults (-1) and `zoom_size_xy = -1`: the x/y size is
+      derived from the attenuation image at every call (coverage round 4) -/
+  | auto (att : Nat) (cls : Nat)
   deriving DecidableEq, Repr
 
 /-- what `scatt_points_vector` was sampled from (`sample_scatter_points`) -/
@@ -240,6 +325,10 @@ structure World where
   blocksBase : Nat → Bool
   /-- `check_z_to_middle_consistent` of the attenuation / scatter-point images against this activity image -/
   zOk : Nat → Bool
+  /-- the factors `downsample_density_image_for_scatter_points(-1, -1, -1, -1)` computes for attenuation image `att` under
+      template `t` (`zoom_xy = att voxel size / voxel size of the template's default image`, `zoom_z`, `zoom_size_z`), as a
+      class: two (image, template) pairs are in the same class iff the three stored numbers coincide -/
+  autoClass : Nat → Tmpl → Nat
 
 /-- `Succeeded::yes` / `error()` thrown / memory-unsafe access / outside the model -/
 inductive Res where
@@ -263,6 +352,11 @@ structure St where
   rnd : Bool
   /-- `zoom_xy, zoom_z, zoom_size_xy, zoom_size_z` (`none`: the defaults, all -1) -/
   zoom : Option Nat
+  /-- what `downsample_density_image_for_scatter_points` stored in `zoom_xy`, `zoom_z`, `zoom_size_z` when it was called
+      with the defaults (`zoom = none`): the class of the factors it computed and the z size
+      `(tmpl_density.get_z_size() + 1) / 2` = number of rings; `zoom_size_xy` stays -1 (ScatterSimulation.cxx:538-562).
+      `none`: still the defaults. Only read while `zoom = none`. -/
+  autoZ : Option (Nat × Nat)
   /-- `downsample_scanner_bool`, `downsample_scanner_rings`, `downsample_scanner_dets` -/
   dsBool : Bool
   dsRings : Int
@@ -295,7 +389,7 @@ structure St where
     assigned (-1) by `set_template_proj_data_info` / `set_up` before any use. Threshold 0 = 0.01; random placement on. -/
 def init : St :=
   { act := none, att := none, tmpl := none, exam := none, thr := 0, useCache := true, rnd := true, zoom := none,
-    dsBool := false, dsRings := -1, dsDets := -1, spImage := none, scatt := none, detPts := [],
+    autoZ := none, dsBool := false, dsRings := -1, dsDets := -1, spImage := none, scatt := none, detPts := [],
     actCache := none, attCache := none, effNoScatter := none, maxCos := none, alreadySetUp := false,
     gTmpl := none, gSp := none }
 
@@ -366,7 +460,7 @@ def setTemplateFile (e : Nat) (t : Tmpl) (s : St) : St :=
 
 /-- `set_image_downsample_factors` (ScatterSimulation.cxx:515) with non-negative zooms -/
 def setZoom (z : Nat) (s : St) : St :=
-  { s with zoom := some z, alreadySetUp := false }
+  { s with zoom := some z, autoZ := none, alreadySetUp := false }
 
 /-- `set_attenuation_threshold` (ScatterSimulation.cxx:976) -/
 def setThr (t : Nat) (s : St) : St :=
@@ -441,17 +535,47 @@ def downsampleScanner (W : World) (newRings newDets : Int) (s : St) : St × Res 
   (if r = .ok then { s1 with gTmpl := s1.tmpl } else s1, r)
 
 /-- `downsample_density_image_for_scatter_points(zoom_xy, zoom_z, zoom_size_xy, zoom_size_z)` with the
-    members as arguments, as `set_up` calls it (ScatterSimulation.cxx:527); explicit zooms only -/
-def downsampleSp (s : St) : St × Res :=
+    members as arguments, as `set_up` calls it (ScatterSimulation.cxx:527).
+    With a zoom parameter set (factors ≥ 0): `set_image_downsample_factors(...)` stores the same set again (the generated
+    sets with sizes -1 are such that the "adjusted" `zoom_z` written back at :577 is the value given).
+    With the defaults (coverage round 4): the factors are computed from the attenuation image and the template's default
+    image (:538-558; `*proj_data_info_sptr` is dereferenced) and STORED by `set_image_downsample_factors(_zoom_xy, zoom_z,
+    _size_xy, _size_z)` (:562) — `zoom_xy`, `zoom_z`, `zoom_size_z` are no longer -1 afterwards, `zoom_size_xy` still is, so
+    that the next call (:564-566) takes the stored factors, the stored z size, and derives the x/y size from the image it is
+    given then. -/
+def downsampleSp (W : World) (s : St) : St × Res :=
   match s.att with
   | none => (s, .err)
   | some m =>
     match s.zoom with
-    | none => (s, .unmodelled)
     | some z =>
       -- `set_image_downsample_factors(...)` stores the same parameter set again, `_already_set_up = false`
       let (s1, r) := sampleScatterPoints { s with spImage := some (.down m z), alreadySetUp := false, gSp := none }
       ({ s1 with attCache := none, alreadySetUp := false }, r)
+    | none =>
+      match s.autoZ with
+      | some (c, _) =>
+        -- the stored factors are ≥ 0: no template needed, the same three numbers are stored again
+        let (s1, r) := sampleScatterPoints { s with spImage := some (.auto m c), alreadySetUp := false, gSp := none }
+        ({ s1 with attCache := none, alreadySetUp := false }, r)
+      | none =>
+        match s.tmpl with
+        | none => (s, .crash)
+        | some t =>
+          let c := W.autoClass m t
+          let (s1, r) := sampleScatterPoints
+            { s with spImage := some (.auto m c), autoZ := some (c, t.rings), alreadySetUp := false, gSp := none }
+          ({ s1 with attCache := none, alreadySetUp := false }, r)
+
+/-- the members `zoom_size_xy`, `zoom_size_z` and "is `zoom_xy` still the default (-1)?" — `zoomSizes z` are the sizes of
+    zoom parameter set `z` -/
+def zoomMembers (zoomSizes : Nat → Int × Int) (s : St) : Int × Int × Bool :=
+  match s.zoom with
+  | some z => ((zoomSizes z).1, (zoomSizes z).2, false)
+  | none =>
+    match s.autoZ with
+    | some (_, sz) => (-1, sz, false)
+    | none => (-1, -1, true)
 
 /-- number of scatter points (`scatt_points_vector.size()`, `get_num_scatter_points()`) -/
 def nspOf (W : World) (s : St) : Nat :=
@@ -483,7 +607,7 @@ def setUp (W : World) (s0 : St) : St × Res :=
     let (s, r) := if s.dsBool then (if s.alreadySetUp then (s, Res.err) else downsampleScannerCore W (-1) (-1) s)
                   else (s, Res.ok)
     if r ≠ .ok then (s, r) else
-    let (s, r) := if s.spImage.isNone then (if s.alreadySetUp then (s, Res.err) else downsampleSp s)
+    let (s, r) := if s.spImage.isNone then (if s.alreadySetUp then (s, Res.err) else downsampleSp W s)
                   else (s, Res.ok)
     if r ≠ .ok then (s, r) else
     if !W.zOk a then (s, .err) else
@@ -603,7 +727,7 @@ def step (W : World) (s : St) : Op → St × Res × Option Out
   | .setDsRings n => (setDsRings n s, .ok, none)
   | .setDsDets n => (setDsDets n s, .ok, none)
   | .downsampleScanner r d => let (s', r) := downsampleScanner W r d s; (s', r, none)
-  | .downsampleSp => let (s', r) := downsampleSp s; (s', r, none)
+  | .downsampleSp => let (s', r) := downsampleSp W s; (s', r, none)
   | .setUp => let (s', r) := setUp W s; (s', r, none)
   | .process => process W s
 
@@ -618,7 +742,25 @@ def run (W : World) : St → List Op → Option St
 /-- hypotheses of the partial history theorem, operation by operation: each clause excludes exactly
     one way in which the unchanged code is known to depart from "equals a freshly configured simulation"
     (see `Props.lean`: every clause has a negative witness) -/
-def opOk (s : St) : Op → Bool
+def autoTmplOk (W : World) (s : St) (t : Tmpl) : Bool :=
+  s.zoom.isSome || match s.autoZ, s.att with
+    | some (c, _), some m => c == W.autoClass m t
+    | _, _ => true
+
+def autoAttOk (W : World) (s : St) (k : Option Nat) : Bool :=
+  s.zoom.isSome || match s.autoZ, k, s.tmpl with
+    | some (c, _), some m, some t => c == W.autoClass m t
+    | _, _, _ => true
+
+def opOk (W : World) (s : St) : Op → Bool
+  -- the automatic zoom factors are frozen by the first call: a template / attenuation image for which other factors
+  -- would be computed gets the old ones (coverage round 4; the template classes are the KNOWN findings
+  -- `automatic-zoom-…`, an attenuation image of another x/y size and the same voxel size and planes is admitted)
+  | .setTemplate t => autoTmplOk W s t
+  | .setTemplateFile _ t => autoTmplOk W s t
+  | .downsampleScanner _ _ => s.zoom.isSome || s.autoZ.isNone
+  | .setDensity k => autoAttOk W s k
+  | .setDensityInPlace m => autoAttOk W s (some m)
   -- `set_exam_info` does not reset `detector_efficiency_no_scatter`
   | .setExam e => s.effNoScatter.isNone || s.exam == some e
   -- `set_attenuation_threshold` does not resample the scatter points of an existing scatter-point image
@@ -626,6 +768,7 @@ def opOk (s : St) : Op → Bool
   -- `set_image_downsample_factors` does not rebuild an existing down-sampled scatter-point image
   | .setZoom z => match s.spImage with
     | some (.down _ _) => s.zoom == some z
+    | some (.auto _ _) => false
     | _ => true
   -- enabling the cache after `set_up` ran without it: nothing allocates the arrays
   | .setCacheEnabled b => !(b && !s.useCache && s.alreadySetUp)
@@ -640,7 +783,7 @@ def opOk (s : St) : Op → Bool
 def runGuarded (W : World) : St → List Op → Option St
   | s, [] => some s
   | s, op :: rest =>
-    if !opOk s op then none else
+    if !opOk W s op then none else
     match step W s op with
     | (_, .crash, _) => none
     | (s', _, _) => runGuarded W s' rest
@@ -662,7 +805,7 @@ def nextIsSetUp : List Op → Bool
 def runGuarded2 (W : World) : St → List Op → Option St
   | s, [] => some s
   | s, op :: rest =>
-    if !(opOk s op || (isEnable op && nextIsSetUp rest)) then none else
+    if !(opOk W s op || (isEnable op && nextIsSetUp rest)) then none else
     match step W s op with
     | (_, .crash, _) => none
     | (s', _, _) => runGuarded2 W s' rest
@@ -809,5 +952,20 @@ def invalidationFailures (tab : List SetterRow) : List (String × Datum) :=
 
 def setUpForcedFailures (tab : List SetterRow) : List String :=
   (tab.filter fun f => !setUpForcedOK f).map (·.name)
+
+/-- coverage round 4: with the DEFAULT (-1) zoom factors the scatter-point image (and the scatter points sampled from it) also
+    depends on the TEMPLATE: `downsample_density_image_for_scatter_points` computes `zoom_xy`, `zoom_z` and `zoom_size_z` from the
+    voxel size and the number of planes of the template's default image (ScatterSimulation.cxx:540-554) -/
+def depsAuto : Datum → List Comp
+  | .spImage => .tmpl :: deps .spImage
+  | .scatt => .tmpl :: deps .scatt
+  | d => deps d
+
+def invalidationOKAuto (f : SetterRow) (d : Datum) : Bool :=
+  !intersects f.modifies (depsAuto d) || covered f d
+
+/-- the (setter, datum) pairs for which invalidation is missing only when the zoom factors are the defaults -/
+def invalidationFailuresAutoOnly (tab : List SetterRow) : List (String × Datum) :=
+  (tab.map fun f => (allData.filter fun d => invalidationOK f d && !invalidationOKAuto f d).map fun d => (f.name, d)).flatten
 
 end StirVerif.C16
